@@ -62,7 +62,28 @@ def run(tier):
     _d_period_setter(chk)
     _e_jacobian(chk)
     _e_tolerance_chain(chk)
+    # the residual, its Jacobian and the crossing search all run in the configured time direction (a backward correction that
+    # searched forward reported success with a half period of 5.6e-12)
+    from . import c11
+    c11._e_wrapper_direction(chk, rule="C05.e")
+    _e_operator_direction(chk)
     return chk
+
+
+def _e_operator_direction(chk):
+    """The operators' three helpers (event propagation, STM, fixed propagation of the symmetric copy) hand the configured
+    direction on: call-site rule on _OrbitCorrectionOperatorBase."""
+    OP = "hiten.algorithms.corrector.operators"
+    mod, cls = ri.find_def(OP, "_OrbitCorrectionOperatorBase")
+    for meth, callee in (("_compute_stm", "_compute_stm"), ("_propagate_to_event", "_event_func")):
+        f = next((x for x in cls.body if isinstance(x, ast.FunctionDef) and x.name == meth), None)
+        if f is None:
+            raise AnalysisError(f"anchor: _OrbitCorrectionOperatorBase.{meth} not found")
+        calls = [c for c in ast.walk(f) if isinstance(c, ast.Call) and ast.unparse(c.func).split(".")[-1] == callee]
+        ok = bool(calls) and all(sites.arg_text(f, next((k.value for k in c.keywords if k.arg == "forward"), None)) == "self._forward" for c in calls)
+        chk.check(ok, "C05.e", f"{OP}::_OrbitCorrectionOperatorBase.{meth}[forward]",
+                  f"{meth} does not pass forward=self._forward to {callee}: the Jacobian / crossing are computed for the other time direction than the residual",
+                  sample=f"{meth}: {callee}(..., forward=self._forward)")
 
 
 def _e_tolerance_chain(chk):
